@@ -3,6 +3,8 @@ import itertools
 import traceback
 
 from . import gen
+from fractions import Fraction
+
 from .poly import Poly, parse_poly, ZERO
 from .model import Model, NotApplicable, CapHit
 from .refparser import parse_program, RefParseError, NotPolynomial
@@ -143,6 +145,16 @@ def compare_closed_form(model, goal, sol, N, seed=0, stats=None, exact=True, tol
             verdict, how, obs_text = polar.compare_value(obs, expected, seed)
         else:
             verdict, how, obs_text = polar.compare_value_rounded(obs, expected, seed, tol)
+            if verdict == "neq" and tol >= 1e-3:
+                # coarse root precision (numeric_eps 1e-3): the deviation is proportional to the size of the TERMS of the closed
+                # form, which cancel in small values; it is judged against the largest magnitude of the sequence up to n
+                try:
+                    env = {v: Fraction(3, 7) for e_ in exp_seq for v in e_.variables()}
+                    scale = max([abs(float(e_.eval(env))) for e_ in exp_seq] + [1.0])
+                    if abs(complex(obs_text) - float(expected.eval(env))) <= tol * scale and not expected.variables():
+                        verdict = "eq"
+                except Exception:
+                    pass
         how_all.add(how)
         if stats is not None:
             stats["evaluations"] = stats.get("evaluations", 0) + 1
@@ -289,8 +301,30 @@ def analyse_program_goals(text, goals, N, seed=0, settings=None, force_cyclic=Fa
                     abs_vars = set()
                     for cond in store.values():
                         abs_vars |= {str(sy) for sy in cond.get_free_symbols()}
+                    # ... including variables that feed an alias the condition was reduced to (`_r0 = c + d - 1`)
+                    changed = True
+                    while changed:
+                        changed = False
+                        for a in list(program.loop_body) + list(program.initial):
+                            if str(a.variable) in abs_vars and str(a.variable).startswith("_"):
+                                new = {str(sy) for sy in a.get_free_symbols(with_condition=False, with_default=False)} - abs_vars
+                                if new:
+                                    abs_vars |= new
+                                    changed = True
                     if abs_vars & set(parse_poly(goal).variables()):
                         sub = "abstraction-joint-law"
+                except Exception:
+                    pass
+                # recorded call-site finding: --numeric_croots replaces CRootOf roots by 15-digit floats while other irrational
+                # roots stay exact radicals; the linear system for the constants is then solved over mixed floats / radicals
+                try:
+                    import sympy as _sp2
+
+                    if sub.startswith("E(") and (settings or {}).get("numeric_croots") and not (settings or {}).get("numeric_roots") \
+                            and not exact and sol.has(_sp2.Float) \
+                            and any(isinstance(a, _sp2.Pow) and a.exp.is_Rational and not a.exp.is_Integer and a.base.is_Rational
+                                    for a in _sp2.preorder_traversal(sol)):
+                        sub = "numeric-croots-mixed-roots"
                 except Exception:
                     pass
                 res["violations"].append({"sub": sub,
